@@ -39,6 +39,7 @@ class SFlat(Sym):
         if self.is_gen:
             fr.yields = []
         nwrites = len(P.ghost.get("writes", []))
+        alloc_mark = P.counters.get("@alloc", 0)
         P.frames.append(fr)
         try:
             P.assign(self.st.target, P.seq_at(self.seq, i))
@@ -55,7 +56,7 @@ class SFlat(Sym):
         if len(P.ghost.get("writes", [])) != nwrites:
             # attribute writes on objects: allowed only on objects allocated inside the iteration
             for (o, name) in P.ghost["writes"][nwrites:]:
-                if not getattr(o, "_iter_local", False) and not (o.ident is not None and z3.is_int_value(o.ident) and o.ident.as_long() < 0 and o.ident.as_long() <= -self._alloc_mark(P)):
+                if not (o.ident is not None and z3.is_int_value(o.ident) and o.ident.as_long() < -alloc_mark):
                     raise Unsupported(f"summarised loop at line {self.st.lineno} writes attribute {name} of an outer object")
         # carried state check
         tnames = _target_names(self.st.target)
@@ -79,9 +80,6 @@ class SFlat(Sym):
             out["yield"] = ys
         self.cache[key] = out
         return out
-
-    def _alloc_mark(self, P):
-        return self.__dict__.setdefault("_mark", 0)
 
 
 class SCat(Sym):
@@ -207,6 +205,9 @@ def exec_for(P, st, seq, spec):
 def flat_to_seq(P, flat: SFlat, channel):
     """View a flat-map as a map (exactly one item per iteration), verified lazily per accessed index."""
     def at(i):
+        n = flat.seq.len if isinstance(flat.seq, SSeq) else len(flat.seq)
+        if not P.branch(z3.And(zint(i) >= 0, zint(i) < zint(n))):
+            return Opaque("bottom")
         items = flat.items_at(P, i)[channel]
         if len(items) != 1 or (isinstance(items[0], tuple) and items[0] and items[0][0] == "from" and channel == "yield"):
             raise Unsupported(f"loop at line {flat.st.lineno} is not a one-to-one map on this path ({len(items)} items)")
